@@ -173,5 +173,35 @@ func vfC28One(rec *evid.Rec, pathName string, debug bool, squash string) {
 			return
 		}
 	}
+	// the credentials a conformant client may present (RFC 5531 appendix A: up to 16 supplementary
+	// groups, a machine name of up to 255 bytes), each on MNT and GETATTR
+	gids16 := make([]uint32, 16)
+	for i := range gids16 {
+		gids16[i] = uint32(100 + i)
+	}
+	for _, cc := range []struct {
+		name string
+		cred xdrw.Cred
+	}{
+		{"no-groups", xdrw.AuthSys(7, "client", 0, 0, nil)},
+		{"one-group", xdrw.AuthSys(7, "client", 0, 0, []uint32{5})},
+		{"sixteen-groups", xdrw.AuthSys(7, "client", 0, 0, gids16)},
+		{"machine-name-255", xdrw.AuthSys(7, strings.Repeat("m", 255), 0, 0, []uint32{5})},
+		{"empty-machine-name", xdrw.AuthSys(0, "", 0, 0, nil)},
+	} {
+		cred := cc.cred
+		conn.cred = &cred
+		if step("MNT/cred="+cc.name, vfProgMount, 1, (&xdrw.W{}).Str("/").B) == nil {
+			return
+		}
+		rp := step("GETATTR/cred="+cc.name, vfProgNFS, 1, xdrw.ArgFH(vfFH(m.FH)))
+		if rp == nil {
+			return
+		}
+		if g, derr := rfc.DecodeNFS(1, rp.Body); derr != nil || g.Status != 0 || g.Attr.Type != 2 {
+			rec.Violate("C28/getattr-of-mounted-handle-failed/start="+pathName+"/cred="+cc.name, fmt.Sprintf("%v %+v", derr, g), nil)
+		}
+	}
+	conn.cred = nil
 	rec.Sample(map[string]any{"start": desc, "port": port})
 }
